@@ -36,6 +36,7 @@ var plainKinds = []string{"verif-plain-a", "verif-plain-b"}
 type c07Task struct {
 	Kind  string `json:"kind"`
 	Snap  string `json:"snap,omitempty"`
+	Comp  string `json:"component,omitempty"` // hook of a component of Snap (still a hook of that snap)
 	Waits []int  `json:"waits,omitempty"`
 	Chg   int    `json:"change"`
 	Fail  bool   `json:"fail,omitempty"`
@@ -200,6 +201,9 @@ func genC07(rnd *rand.Rand) []c07Task {
 		switch x := rnd.Intn(20); {
 		case x < 6:
 			t.Kind, t.Snap = "run-hook", snaps[rnd.Intn(len(snaps))]
+			if rnd.Intn(3) == 0 {
+				t.Comp = []string{"comp-x", "comp-y"}[rnd.Intn(2)]
+			}
 		case x < 12:
 			t.Kind = ifaceKinds[rnd.Intn(len(ifaceKinds))]
 		case x < 15:
@@ -237,7 +241,7 @@ func genC07(rnd *rand.Rand) []c07Task {
 	// second hook of snap-z in another change is runnable the whole time
 	base := len(ts)
 	ts = append(ts,
-		c07Task{Kind: "run-hook", Snap: "snap-z", Chg: nchg, NapUs: 30000 + rnd.Intn(20000)},
+		c07Task{Kind: "run-hook", Snap: "snap-z", Comp: []string{"", "comp-x"}[rnd.Intn(2)], Chg: nchg, NapUs: 30000 + rnd.Intn(20000)},
 		c07Task{Kind: plainKinds[1], Chg: nchg, Fail: true, NapUs: 1000 + rnd.Intn(3000)},
 		c07Task{Kind: "run-hook", Snap: "snap-z", Chg: nchg + 1, NapUs: 1000 + rnd.Intn(3000)},
 		c07Task{Kind: "update-gadget-assets", Chg: nchg + 1, Waits: []int{base + 2}, NapUs: 500},
@@ -284,7 +288,7 @@ func TestVerifC07(t *testing.T) {
 		for k := range tasks {
 			tk := st.NewTask(tasks[k].Kind, fmt.Sprintf("t%d", k))
 			if tasks[k].Kind == "run-hook" {
-				tk.Set("hook-setup", &hookstate.HookSetup{Snap: tasks[k].Snap, Hook: "configure", Optional: true})
+				tk.Set("hook-setup", &hookstate.HookSetup{Snap: tasks[k].Snap, Component: tasks[k].Comp, Hook: "configure", Optional: true})
 			}
 			for _, w := range tasks[k].Waits {
 				tk.WaitFor(sts[w])
